@@ -137,7 +137,15 @@ impl Report {
         let mut c = self.violation_counts.lock().unwrap();
         let n = c.entry(key).or_insert(0);
         *n += 1;
-        if *n <= 40 { self.violations.lock().unwrap().push(v); }
+        let mut vs = self.violations.lock().unwrap();
+        if *n <= 40 { vs.push(v); }
+        else {
+            // keep the 40 smallest inputs of this kind (the counterexample with the fewest deviations survives)
+            let key = v.key();
+            if let Some((idx, _)) = vs.iter().enumerate().filter(|(_, o)| o.key() == key).max_by_key(|(_, o)| o.weight) {
+                if vs[idx].weight > v.weight { vs[idx] = v; }
+            }
+        }
     }
 
     /// Run one named sub-check. `rule` states how cases are enumerated and what counts as
